@@ -13,4 +13,5 @@ def run(ck):
     status.r5_blt_fill(ck, P)
     factors.r9_simd_combiners(ck, P)
     factors.r10_composite_bodies(ck, P)
+    status.r_fill_word(ck, P, 'C02-R11')
     codec.r8_scalar_helpers(ck, P)
